@@ -109,7 +109,10 @@ class TaskSet : public TaskSetBase {
     if (DISPENSO_EXPECT(canceled(), false)) {
       return;
     }
-    if (outstandingTaskCount_.load(std::memory_order_relaxed) > taskSetLoadFactor_) {
+    if (outstandingTaskCount_.load(std::memory_order_relaxed) > taskSetLoadFactor_ &&
+        detail::PerPoolPerThreadInfo::canInlineSchedule()) {
+      // bounded like ConcurrentTaskSet::schedule: do not nest inline execution without limit
+      detail::InlineDepthGuard depthGuard;
       f();
     } else {
       pool_.schedule(token_, packageTask(std::forward<F>(f)));
